@@ -5,6 +5,7 @@ from harness import ringbuffer as R
 
 ID = "C09"
 PROPS = "props/C09.v"
+NEEDS = ["rb_wrap"]
 
 ASSUMPTIONS = [
     "every sample is later than datetime.min + capacity * period (newest == datetime.min is modelled as 'nothing written yet')",
@@ -40,8 +41,9 @@ META = {
                   "oldest/newest agree with the map; every window()/at() answer is, slot by slot, the stored valid value or the fill, only "
                   "for slots inside both the query and [oldest valid, newest], never more slots than the (rounded) query spans, and every "
                   "value was written to that slot by the history; normalize_timestamp is the nearest slot with ties to even (even periods). "
-                  "The model is tied to the code by correspondence only (no T-tie item: normalize_timestamp/wrap/Gap.contains use "
-                  "divmod / self attributes outside the translator's subset).",
+                  "T-tie: OrderedRingBuffer.wrap is regenerated from /repo on every run (gen/RingBuffer.v) and used by the model; everything "
+                  "else is tied by correspondence (normalize_timestamp needs `+=`, Gap.contains has a field named `end`: both outside the "
+                  "translator's subset).",
     "level_note": "Model follows the code AFTER three fix: commits in /repo (5c62ba0 window() normalises datetimes — F11/F12; b0ce417 "
                   "MovingWindow.at gap slots / index range — F13; c194ad4 count_covered exact division — new finding).  Not proved, only "
                   "exercised by correspondence: float rounding inside to_internal_index and the sort key, numpy vs list storage, pickle "
